@@ -606,7 +606,23 @@ void caseWrapper(vrt::Case& c)
   int wkind = static_cast<int>((c.index / 50) % 4); // 0,1: second order wrapper, 2: first order, 3: plain
   const char* wname = wkind <= 1 ? "second-order-wrapper" : wkind == 2 ? "first-order-wrapper" : "function-wrapper";
   bool subsetCtor = n >= 2 && rng.chance(0.2);
-  vrt::describe(string(wname) + (subsetCtor ? ":subset-ctor" : ""), str(n) + " parameters { " + cfgs + " }");
+
+  // Decisions about copies of the wrapper and about the order of a parameter selection come from a stream of their own,
+  // so that the histories drawn from c.rng stay what they were.
+  vrt::Rng aux(vrt::mix(vrt::mix(c.seed, vrt::hashStr("C11/wrapper/copies")), c.index));
+  // At four stages of the history (0: right after wrapping, 1: after the come-back, 2: after the third evaluation point,
+  // 3: before the sweep) the wrapper may be replaced by a copy of itself: 1 clone(), 2 copy constructor,
+  // 3 assignment onto a wrapper of the same class that was built around another function.  0: no copy.
+  static const char* routeName[] = { "", "clone", "copy-constructor", "assignment" };
+  int copyPlan[4];
+  string planTxt;
+  for (int s = 0; s < 4; ++s)
+  {
+    copyPlan[s] = aux.chance(0.15) ? 1 + static_cast<int>(aux.below(3)) : 0;
+    if (copyPlan[s]) planTxt += string(planTxt.empty() ? "" : ",") + routeName[copyPlan[s]] + "@stage" + str(s);
+  }
+  bool permuteSelection = subsetCtor && aux.chance(0.5);
+  vrt::describe(string(wname) + (subsetCtor ? ":subset-ctor" : ""), str(n) + " parameters { " + cfgs + " }" + (permuteSelection ? " ; selection in another order" : "") + (planTxt.empty() ? "" : " ; wrapper replaced by a copy: " + planTxt));
 
   Poly poly = drawPoly(rng, specs);
   shared_ptr<PolyFunction> F;
@@ -624,8 +640,17 @@ void caseWrapper(vrt::Case& c)
   {
     for (size_t i = 0; i < n; ++i) if (rng.chance(0.6)) taken.push_back(i);
     if (taken.empty()) taken.push_back(rng.below(n));
-    for (size_t i : taken) sel.addParameter(F->getParameters()[i]);
-    sel.addParameter(Parameter("not-a-parameter-of-the-function", 1.));
+    size_t foreignAt = taken.size();
+    if (permuteSelection)
+    {
+      aux.shuffle(taken); // the selection names the parameters in another order than the function does
+      foreignAt = aux.below(taken.size() + 1);
+    }
+    for (size_t k = 0; k <= taken.size(); ++k)
+    {
+      if (k == foreignAt) sel.addParameter(Parameter("not-a-parameter-of-the-function", 1.));
+      if (k < taken.size()) sel.addParameter(F->getParameters()[taken[k]]);
+    }
   }
   else
     for (size_t i = 0; i < n; ++i) taken.push_back(i);
@@ -671,17 +696,32 @@ void caseWrapper(vrt::Case& c)
   }
 
   // ---- wrapper parameters: same names in the same order, transformed coordinates are finite reals
-  const ParameterList& wp = W->getParameters();
+  const ParameterList* wpp = &W->getParameters(); // re-pointed when the wrapper is replaced by a copy of itself
   {
-    bool ok = wp.size() == taken.size();
-    for (size_t k = 0; ok && k < taken.size(); ++k) ok = wp[k].getName() == "p" + str(taken[k]);
-    if (!vrt::expect(ok, "wrapper.parameter-names", wname, [&] { return cfgs + ": wrapper parameters " + vrt::vecStr(wp.getParameterNames()); })) return;
+    bool ok = (*wpp).size() == taken.size();
+    if (permuteSelection)
+    {
+      // the order of the wrapper's parameters is not documented for a selection given in another order than the function's:
+      // every selected name exactly once, in any order; the harness follows the wrapper's order from here on
+      vector<size_t> order;
+      for (size_t k = 0; ok && k < (*wpp).size(); ++k)
+      {
+        bool found = false;
+        for (size_t i : taken)
+          if ((*wpp)[k].getName() == "p" + str(i) && find(order.begin(), order.end(), i) == order.end()) { order.push_back(i); found = true; break; }
+        ok = found;
+      }
+      if (ok) taken = order;
+    }
+    else
+      for (size_t k = 0; ok && k < taken.size(); ++k) ok = (*wpp)[k].getName() == "p" + str(taken[k]);
+    if (!vrt::expect(ok, "wrapper.parameter-names", wname, [&] { return cfgs + ": wrapper parameters " + vrt::vecStr((*wpp).getParameterNames()); })) return;
   }
   vector<double> X0(taken.size());
   for (size_t k = 0; k < taken.size(); ++k)
   {
     size_t i = taken[k];
-    X0[k] = wp[k].getValue();
+    X0[k] = (*wpp)[k].getValue();
     string cls = string(configName(specs[i].config)) + (atBound(i) ? ":value-at-bound" : "");
     vrt::cover(string("wrap:") + cls);
     vrt::expect(std::isfinite(X0[k]), "wrapper.initial-coordinate-finite", cls, [&] { return specs[i].text() + ": transformed coordinate after wrapping is " + str(X0[k]); });
@@ -695,13 +735,14 @@ void caseWrapper(vrt::Case& c)
   vector<double> X = X0;            // current transformed coordinates (model)
   vector<double> expectedF = P0;    // function parameters we expect to see for parameters not (yet) updated
   auto tparam = [&](size_t k) -> const TransformedParameter& { return dynamic_cast<const TransformedParameter&>(W->parameter(nameOf(k))); };
+  string cp;                        // class suffix of the per-update clauses once the wrapper under test is a copy ("" before)
 
   auto update = [&](const vector<size_t>& which, const vector<double>& vals, bool viaF, const string& what) -> bool {
       ParameterList pl;
       string txt;
       for (size_t t = 0; t < which.size(); ++t)
       {
-        Parameter p(wp[which[t]]);
+        Parameter p((*wpp)[which[t]]);
         p.setValue(vals[t]);
         pl.addParameter(p);
         txt += (t ? "," : "") + nameOf(which[t]) + "=" + str(vals[t]);
@@ -723,12 +764,12 @@ void caseWrapper(vrt::Case& c)
           if (!specs[taken[which[t]]].feasible(ov)) { cls = string(configName(specs[taken[which[t]]].config)) + (vals[t] < 0 ? ":negative-coordinate" : ":positive-coordinate"); break; }
         }
       }
-      if (!vrt::expect(o.returned(), "wrapper.accepts-any-real-point", cls, [&] { return cfgs + ": " + what + " " + txt + " " + o.text(); }))
+      if (!vrt::expect(o.returned(), "wrapper.accepts-any-real-point", cls + cp, [&] { return cfgs + ": " + what + " " + txt + " " + o.text(); }))
         return false;
       for (size_t t = 0; t < which.size(); ++t) X[which[t]] = vals[t];
       // the wrapper's own coordinates hold what was set
       for (size_t k = 0; k < taken.size(); ++k)
-        vrt::expect(wp[k].getValue() == X[k], "wrapper.coordinates-kept", wname, [&] { return cfgs + ": after " + txt + " wrapper coordinate " + nameOf(k) + " is " + str(wp[k].getValue()) + " expected " + str(X[k]); });
+        vrt::expect((*wpp)[k].getValue() == X[k], "wrapper.coordinates-kept", wname + cp, [&] { return cfgs + ": after " + txt + " wrapper coordinate " + nameOf(k) + " is " + str((*wpp)[k].getValue()) + " expected " + str(X[k]); });
       // function parameters: updated ones = back-transformed coordinate; the others keep their value
       vector<double> now = F->point();
       for (size_t t = 0; t < which.size(); ++t)
@@ -736,16 +777,16 @@ void caseWrapper(vrt::Case& c)
         size_t k = which[t], i = taken[k];
         double ov = tparam(k).getOriginalValue();
         string cc = configName(specs[i].config);
-        vrt::expect(vrt::sameDouble(now[i], ov), "wrapper.function-at-backtransformed-point", cc, [&] {
+        vrt::expect(vrt::sameDouble(now[i], ov), "wrapper.function-at-backtransformed-point", cc + cp, [&] {
               return cfgs + ": after " + txt + " function parameter p" + str(i) + "=" + str(now[i]) + " but the back-transformed coordinate is " + str(ov);
             });
         string side = fabs(vals[t]) >= 18 ? (vals[t] < 0 ? ":far-negative" : ":far-positive") : "";
         vrt::cover("update:" + cc + side);
-        vrt::expect(specs[i].feasible(now[i]), "wrapper.backtransformed-feasible", cc + side, [&] {
+        vrt::expect(specs[i].feasible(now[i]), "wrapper.backtransformed-feasible", cc + side + cp, [&] {
               return cfgs + ": after " + txt + " function parameter p" + str(i) + "=" + str(now[i]) + " violates " + specs[i].text();
             });
         if (!isTransformed(specs[i].config))
-          vrt::expect(now[i] == vals[t], "wrapper.passthrough", cc, [&] { return cfgs + ": after " + txt + " untransformed parameter p" + str(i) + "=" + str(now[i]); });
+          vrt::expect(now[i] == vals[t], "wrapper.passthrough", cc + cp, [&] { return cfgs + ": after " + txt + " untransformed parameter p" + str(i) + "=" + str(now[i]); });
         expectedF[i] = now[i];
       }
       // parameters the update did not name: untouched, or (equally faithful) re-set to the back-transformed value of their coordinate;
@@ -759,10 +800,10 @@ void caseWrapper(vrt::Case& c)
         othersKept = othersKept && ok;
         expectedF[i] = now[i];
       }
-      vrt::expect(othersKept, "wrapper.other-parameters-kept", wname, [&] { return cfgs + ": after " + txt + " function parameters are " + pointStr(now) + " (neither the previous values nor the back-transformed coordinates)"; });
+      vrt::expect(othersKept, "wrapper.other-parameters-kept", wname + cp, [&] { return cfgs + ": after " + txt + " function parameters are " + pointStr(now) + " (neither the previous values nor the back-transformed coordinates)"; });
       // value
       double want = poly.eval(now);
-      vrt::expect(vrt::sameDouble(ret, want) && vrt::sameDouble(W->getValue(), want), "wrapper.value", wname, [&] {
+      vrt::expect(vrt::sameDouble(ret, want) && vrt::sameDouble(W->getValue(), want), "wrapper.value", wname + cp, [&] {
             return cfgs + ": " + what + " " + txt + " returned " + str(ret) + " (getValue " + str(W->getValue()) + ") but the function at the back-transformed point " + pointStr(now) + " is " + str(want);
           });
       return true;
@@ -770,6 +811,110 @@ void caseWrapper(vrt::Case& c)
 
   vector<size_t> all(taken.size());
   for (size_t k = 0; k < all.size(); ++k) all[k] = k;
+
+  // ---- replacing the wrapper by a copy of itself (clone through the base class, copy constructor of its own class,
+  //      assignment onto a wrapper of its class built around another function).  A copy of a reparametrised function is a
+  //      reparametrised function of the same original function at the same transformed point: it has the same parameters
+  //      at the same coordinates, and every clause of `update` applies to it for the rest of the history.
+  bool nonPrefix = false; // the wrapper's parameters are not the leading parameters of the function in the function's order
+  for (size_t k = 0; k < taken.size(); ++k) nonPrefix = nonPrefix || taken[k] != k;
+  const string shape = !subsetCtor ? "all-parameters" : nonPrefix ? "selection-not-a-prefix" : "selection-prefix";
+  vector<shared_ptr<void>> keepAlive; // originals / assignment targets' functions that stay alive next to the copy
+  auto replaceByCopy = [&](int route) -> bool {
+      const string rn = routeName[route];
+      vrt::step("the wrapper is replaced by a copy of itself (" + rn + ")");
+      const vector<double> before = F->point();
+      shared_ptr<ReparametrizationFunctionWrapper> nW;
+      shared_ptr<ReparametrizationDerivableFirstOrderWrapper> nW1;
+      shared_ptr<ReparametrizationDerivableSecondOrderWrapper> nW2;
+      bool targetBuilt = true;
+      vrt::Outcome o = vrt::capture([&] {
+          if (route == 1)
+          {
+            nW.reset(W->clone()); // through the base class, as a polymorphic client does
+            nW1 = dynamic_pointer_cast<ReparametrizationDerivableFirstOrderWrapper>(nW);
+            nW2 = dynamic_pointer_cast<ReparametrizationDerivableSecondOrderWrapper>(nW);
+          }
+          else if (route == 2)
+          {
+            if (W2) { nW2 = make_shared<ReparametrizationDerivableSecondOrderWrapper>(*W2); nW1 = nW2; nW = nW2; }
+            else if (W1) { nW1 = make_shared<ReparametrizationDerivableFirstOrderWrapper>(*W1); nW = nW1; }
+            else nW = make_shared<ReparametrizationFunctionWrapper>(*W);
+          }
+          else
+          {
+            // a wrapper of the same class around another function (same parameter names, other constraints / values / count)
+            size_t n2 = 1 + aux.below(5);
+            vector<Spec> specs2;
+            for (size_t i = 0; i < n2; ++i) specs2.push_back(drawSpec(aux, static_cast<int>(aux.below(NCONFIG))));
+            Poly poly2 = drawPoly(aux, specs2);
+            shared_ptr<PolyFunction> G;
+            ParameterList sel2;
+            bool sub2 = aux.chance(0.5);
+            targetBuilt = false;
+            try
+            {
+              G = make_shared<PolyFunction>(poly2, specs2);
+              for (size_t i = n2; i-- > 0;) if (aux.chance(0.5)) sel2.addParameter(G->getParameters()[i]);
+              if (W2) { nW2 = sub2 ? make_shared<ReparametrizationDerivableSecondOrderWrapper>(G, sel2, false) : make_shared<ReparametrizationDerivableSecondOrderWrapper>(G, false); nW1 = nW2; nW = nW2; }
+              else if (W1) { nW1 = sub2 ? make_shared<ReparametrizationDerivableFirstOrderWrapper>(G, sel2, false) : make_shared<ReparametrizationDerivableFirstOrderWrapper>(G, false); nW = nW1; }
+              else nW = sub2 ? make_shared<ReparametrizationFunctionWrapper>(G, sel2, false) : make_shared<ReparametrizationFunctionWrapper>(G, false);
+              targetBuilt = true;
+            }
+            catch (...) {} // building the assignment target is judged by the construction clauses of its own cases, not here
+            if (targetBuilt)
+            {
+              if (aux.chance(0.5)) keepAlive.push_back(G);
+              if (W2) *nW2 = *W2;
+              else if (W1) *nW1 = *W1;
+              else *nW = *W;
+            }
+          }
+        });
+      if (!targetBuilt) { vrt::counted("harness.assignment-target-construction-refused"); return true; } // carry on with the wrapper as it is
+      if (!vrt::expect(o.returned() && nW, "wrapper.copy", rn, [&] { return cfgs + ": " + rn + " of the wrapper " + o.text(); })) return false;
+      vrt::cover("copy:" + rn + ":" + wname + ":" + shape);
+      // same class
+      if (!vrt::expect((W1 != nullptr) == (nW1 != nullptr) && (W2 != nullptr) == (nW2 != nullptr), "wrapper.copy-keeps-class", rn + ":" + wname, [&] {
+              return cfgs + ": the " + rn + " of a " + wname + " is a " + vrt::typeName(typeid(*nW));
+            })) return false;
+      // same parameters at the same transformed coordinates
+      const ParameterList& np = nW->getParameters();
+      bool same = np.size() == taken.size();
+      for (size_t k = 0; same && k < taken.size(); ++k)
+        same = np[k].getName() == nameOf(k) && vrt::sameDouble(np[k].getValue(), X[k]) && dynamic_cast<const TransformedParameter*>(&np[k]) != nullptr;
+      if (!vrt::expect(same, "wrapper.copy-keeps-coordinates", rn, [&] {
+              string got;
+              for (size_t k = 0; k < np.size(); ++k) got += (k ? "," : "") + np[k].getName() + "=" + str(np[k].getValue());
+              string exp;
+              for (size_t k = 0; k < taken.size(); ++k) exp += (k ? "," : "") + nameOf(k) + "=" + str(X[k]);
+              return cfgs + ": the " + rn + " has the transformed parameters " + got + ", the wrapper it was copied from " + exp;
+            })) return false;
+      // copying does not move the function away from the back-transformed point (untouched, or re-set to the back-transformed coordinates)
+      vector<double> now = F->point();
+      bool kept = true;
+      for (size_t i = 0; i < n; ++i)
+      {
+        bool ok = vrt::sameDouble(now[i], before[i]);
+        for (size_t k = 0; !ok && k < taken.size(); ++k)
+          if (taken[k] == i) ok = vrt::sameDouble(now[i], dynamic_cast<const TransformedParameter&>(np[k]).getOriginalValue());
+        kept = kept && ok;
+        expectedF[i] = now[i];
+      }
+      vrt::expect(kept, "wrapper.other-parameters-kept", string(wname) + ":" + rn, [&] { return cfgs + ": the function's parameters were " + pointStr(before) + " and are " + pointStr(now) + " after the " + rn + " of its wrapper"; });
+      vrt::expect(vrt::sameDouble(nW->getValue(), poly.eval(now)), "wrapper.value", string(wname) + ":" + rn, [&] {
+            return cfgs + ": value of the " + rn + " " + str(nW->getValue()) + " but the function at its parameters " + pointStr(now) + " is " + str(poly.eval(now));
+          });
+      if (aux.chance(0.5)) keepAlive.push_back(W); // else the original dies here: the copy must not depend on it
+      W = nW;
+      W1 = nW1;
+      W2 = nW2;
+      wpp = &W->getParameters();
+      cp = ":copied-wrapper";
+      return true;
+    };
+  auto stage = [&](int s) -> bool { return copyPlan[s] == 0 || replaceByCopy(copyPlan[s]); };
+  if (!stage(0)) return;
 
   // ---- going away and coming back to the initial coordinates returns the initial values (to rounding; a value
   //      that sat on a closed bound may have been moved inside by the documented 1e-12)
@@ -784,16 +929,19 @@ void caseWrapper(vrt::Case& c)
       size_t i = taken[k];
       double tol = 64 * EPS * max(specs[i].mag(), fabs(P0[i])) + 2.5e-12;
       string cls = string(configName(specs[i].config)) + (atBound(i) ? ":value-at-bound" : "");
-      vrt::expect(fabs(now[i] - P0[i]) <= tol, "wrapper.roundtrip", cls, [&] {
+      vrt::expect(fabs(now[i] - P0[i]) <= tol, "wrapper.roundtrip", cls + cp, [&] {
             return specs[i].text() + ": wrapped at " + str(P0[i]) + " (coordinate " + str(X0[k]) + "), evaluating at that coordinate gives the function " + str(now[i]) + " (error " + str(now[i] - P0[i]) + ", tolerance " + str(tol) + ")";
           });
     }
   }
 
+  if (!stage(1)) return;
+
   // ---- evaluation points
   size_t nPoints = 6;
   for (size_t pt = 0; pt < nPoints; ++pt)
   {
+    if (pt == 3 && !stage(2)) return;
     vector<size_t> which = all;
     bool subset = taken.size() >= 2 && rng.chance(0.3);
     if (subset)
@@ -830,30 +978,30 @@ void caseWrapper(vrt::Case& c)
       vrt::Outcome o;
       double got1 = 0;
       o = vrt::capture([&] { got1 = W1->getFirstOrderDerivative(nameOf(k)); });
-      if (vrt::expect(o.returned(), "wrapper.chain-rule-1", cc + ":raised", [&] { return cfgs + ": getFirstOrderDerivative(" + nameOf(k) + ") " + o.text(); }))
+      if (vrt::expect(o.returned(), "wrapper.chain-rule-1", cc + ":raised" + cp, [&] { return cfgs + ": getFirstOrderDerivative(" + nameOf(k) + ") " + o.text(); }))
       {
         double want = Fi * fds[k].d1;
         double allow = fabs(Fi) * fds[k].r1;
         vrt::cover("chain1:" + cc);
-        vrt::expect(agrees(got1, want, allow), "wrapper.chain-rule-1", cc, [&] {
+        vrt::expect(agrees(got1, want, allow), "wrapper.chain-rule-1", cc + cp, [&] {
               return cfgs + ": at coordinates " + pointStr(X) + " d/d" + nameOf(k) + " = " + str(got1) + " expected dF/dp=" + str(Fi) + " times dp/dx=" + str(fds[k].d1) + " = " + str(want) + " (allowance " + str(allow) + ")";
             });
         if (!isTransformed(specs[i].config))
-          vrt::expect(got1 == Fi, "wrapper.passthrough-derivative", cc + ":first", [&] { return cfgs + ": untransformed " + nameOf(k) + " first derivative " + str(got1) + " function's " + str(Fi); });
+          vrt::expect(got1 == Fi, "wrapper.passthrough-derivative", cc + ":first" + cp, [&] { return cfgs + ": untransformed " + nameOf(k) + " first derivative " + str(got1) + " function's " + str(Fi); });
       }
       if (!W2) continue;
       double got2 = 0;
       o = vrt::capture([&] { got2 = W2->getSecondOrderDerivative(nameOf(k)); });
-      if (vrt::expect(o.returned(), "wrapper.chain-rule-2", cc + ":raised", [&] { return cfgs + ": getSecondOrderDerivative(" + nameOf(k) + ") " + o.text(); }))
+      if (vrt::expect(o.returned(), "wrapper.chain-rule-2", cc + ":raised" + cp, [&] { return cfgs + ": getSecondOrderDerivative(" + nameOf(k) + ") " + o.text(); }))
       {
         double want = Fii * fds[k].d1 * fds[k].d1 + Fi * fds[k].d2;
         double allow = 2 * fabs(Fii * fds[k].d1) * fds[k].r1 + fabs(Fi) * fds[k].r2 + RELTOL * (fabs(Fii * fds[k].d1 * fds[k].d1) + fabs(Fi * fds[k].d2));
         vrt::cover("chain2:" + cc);
-        vrt::expect(agrees(got2, want, allow), "wrapper.chain-rule-2", cc, [&] {
+        vrt::expect(agrees(got2, want, allow), "wrapper.chain-rule-2", cc + cp, [&] {
               return cfgs + ": at coordinates " + pointStr(X) + " d2/d" + nameOf(k) + "2 = " + str(got2) + " expected F''=" + str(Fii) + " * (p')^2 with p'=" + str(fds[k].d1) + " + F'=" + str(Fi) + " * p''=" + str(fds[k].d2) + " = " + str(want) + " (allowance " + str(allow) + ")";
             });
         if (!isTransformed(specs[i].config))
-          vrt::expect(got2 == Fii, "wrapper.passthrough-derivative", cc + ":second", [&] { return cfgs + ": untransformed " + nameOf(k) + " second derivative " + str(got2) + " function's " + str(Fii); });
+          vrt::expect(got2 == Fii, "wrapper.passthrough-derivative", cc + ":second" + cp, [&] { return cfgs + ": untransformed " + nameOf(k) + " second derivative " + str(got2) + " function's " + str(Fii); });
       }
       for (size_t l = 0; l < taken.size(); ++l)
       {
@@ -862,16 +1010,18 @@ void caseWrapper(vrt::Case& c)
         double Fij = poly.d2(now, i, j);
         double gotx = 0;
         o = vrt::capture([&] { gotx = W2->getSecondOrderDerivative(nameOf(k), nameOf(l)); });
-        if (!vrt::expect(o.returned(), "wrapper.chain-rule-cross", cc + ":raised", [&] { return cfgs + ": getSecondOrderDerivative(" + nameOf(k) + "," + nameOf(l) + ") " + o.text(); })) continue;
+        if (!vrt::expect(o.returned(), "wrapper.chain-rule-cross", cc + ":raised" + cp, [&] { return cfgs + ": getSecondOrderDerivative(" + nameOf(k) + "," + nameOf(l) + ") " + o.text(); })) continue;
         double want = Fij * fds[k].d1 * fds[l].d1;
         double allow = fabs(Fij) * (fabs(fds[k].d1) * fds[l].r1 + fabs(fds[l].d1) * fds[k].r1 + fds[k].r1 * fds[l].r1) + RELTOL * fabs(want);
         vrt::cover(string("chainx:") + cc);
-        vrt::expect(agrees(gotx, want, allow), "wrapper.chain-rule-cross", cc, [&] {
+        vrt::expect(agrees(gotx, want, allow), "wrapper.chain-rule-cross", cc + cp, [&] {
               return cfgs + ": at coordinates " + pointStr(X) + " d2/d" + nameOf(k) + "d" + nameOf(l) + " = " + str(gotx) + " expected " + str(Fij) + " * " + str(fds[k].d1) + " * " + str(fds[l].d1) + " = " + str(want) + " (allowance " + str(allow) + ")";
             });
       }
     }
   }
+
+  if (!stage(3)) return;
 
   // ---- one coordinate swept over a sorted grid: the function's parameter moves monotonically, in one direction
   {
@@ -892,14 +1042,14 @@ void caseWrapper(vrt::Case& c)
       int s = d > slack ? 1 : d < -slack ? -1 : 0;
       bool ok = s == 0 || dir == 0 || s == dir;
       if (dir == 0) dir = s;
-      vrt::expect(ok, "wrapper.monotone", cc, [&] {
+      vrt::expect(ok, "wrapper.monotone", cc + cp, [&] {
             return specs[i].text() + ": coordinates " + str(grid[t]) + " < " + str(grid[t + 1]) + " give the function " + str(seen[t]) + " and " + str(seen[t + 1]) + " against the direction seen before";
           });
     }
     // unsaturated part strictly
     bool inc = true, dec = true;
     for (size_t t = 4; t + 1 <= 12; ++t) { inc = inc && seen[t + 1] > seen[t]; dec = dec && seen[t + 1] < seen[t]; }
-    vrt::expect(inc || dec, "wrapper.monotone", cc + ":strict-centre", [&] { return specs[i].text() + ": coordinates -4..4 give the function " + pointStr(vector<double>(seen.begin() + 4, seen.begin() + 13)); });
+    vrt::expect(inc || dec, "wrapper.monotone", cc + ":strict-centre" + cp, [&] { return specs[i].text() + ": coordinates -4..4 give the function " + pointStr(vector<double>(seen.begin() + 4, seen.begin() + 13)); });
   }
 }
 
@@ -993,7 +1143,10 @@ int main(int argc, char** argv)
       "a bound (half lines: log part, junction at one unit, linear part up to 1e6), derivative checks at the images of those values and at 16 further coordinates in [-30,30]. "
       "wrapper: polynomial test double with 1..5 parameters; the first parameter cycles through the eight bound configurations, 'unconstrained' and 'non-interval constraint', the others are "
       "drawn at random; the three wrapper classes and both constructors; 8 updates through f()/setParameters (full, reordered, subsets) at coordinates in [-30,30] (extremes, 0, "
-      "near 0 included) plus a 17 point sweep of one coordinate. wrap-sweep: one configuration, sorted initial values, a fresh wrapper each. "
+      "near 0 included) plus a 17 point sweep of one coordinate; a selection given to the second constructor is in another order than the function's in half of those cases; "
+      "at each of four stages of the history (after wrapping, after the come-back, after the third point, before the sweep) the wrapper is replaced with probability 0.15 by a copy of itself "
+      "(clone() through the base class, copy constructor, assignment onto a wrapper of the same class built around another function) and the history goes on through the copy "
+      "(decisions from a separate stream, the histories themselves are unchanged). wrap-sweep: one configuration, sorted initial values, a fresh wrapper each. "
       "A class key = (transform kind or bound configuration, region: near-lower/near-upper/interior, log/linear part, centre/tail, value-at-bound, far-negative/far-positive coordinate, "
       "which derivative); every key involves a real conversion or wrapper update.";
   meta.assumptions = {
@@ -1004,10 +1157,13 @@ int main(int argc, char** argv)
     "no finite difference is taken across the junction of the two pieces of a half-line map (coordinate within 0.0202 of 0)",
     "the wrapper is driven through f() and setParameters() (the update entry points it defines); the chain rule is judged against F'(p) and numerical derivatives of the map the wrapped function actually sees, not against a formula",
     "an interval constraint with two infinite bounds is outside the eight configurations and is not generated",
+    "a copy (clone, copy constructor, assignment) of a wrapper is a reparametrised function of the same original function at the same transformed point: same parameter names and "
+    "coordinates, and every per-update clause applies to it; the original is not used any more once it has been copied (both share the function); the order of the wrapper's parameters "
+    "for a selection given in another order than the function's is not documented, any order is accepted",
   };
   meta.requiredClauses = { "transform.roundtrip", "transform.strictly-monotone", "transform.derivative1", "transform.derivative2", "transform.inverse-monotone",
                            "wrapper.untouched-after-wrapping", "wrapper.accepts-any-real-point", "wrapper.function-at-backtransformed-point", "wrapper.backtransformed-feasible",
                            "wrapper.value", "wrapper.chain-rule-1", "wrapper.chain-rule-2", "wrapper.chain-rule-cross", "wrapper.passthrough", "wrapper.passthrough-derivative",
-                           "wrapper.roundtrip", "wrapper.strictly-monotone", "wrapper.monotone" };
+                           "wrapper.roundtrip", "wrapper.strictly-monotone", "wrapper.monotone", "wrapper.copy-keeps-coordinates" };
   return vrt::run(argc, argv, "C11", groups, meta);
 }
